@@ -4,7 +4,7 @@
    export exported up (mp st): the published increment (None = the Go code would panic, Some None = no fact). *)
 From Coq Require Import List Bool Arith.
 From NM Require Import Engine EngineSpec.
-From NP Require Import EngineBasics EngineStep EngineMain ExportProofs ExportConvex.
+From NP Require Import EngineBasics EngineStep EngineMain ExportProofs ExportConvex ModularProofs ModularComplete.
 Import ListNotations.
 
 (* every verdict on a site of an exported symbol is published, or was already published by a dependency *)
@@ -66,3 +66,33 @@ Example C06_convex_example :
 Proof.
   cbn zeta. split; intros s H; vm_compute in H |- *; intuition (subst; try discriminate; auto).
 Qed.
+
+(* ---- the importer's view ----
+   An importer that combines the dependencies' facts with this increment (CEx) reaches the same conflicts as one given
+   the package's full internal constraint graph (CWh), and the same verdicts on every site it can see -- provided no
+   controlled trigger of the package is left pending (finding F15; C03_refuted_pending_controlled shows the condition
+   cannot be dropped).  D is everything else the importer knows; it mentions this package's sites only through exported
+   symbols. *)
+Theorem C06_importer_finds_every_flow : forall exported facts annots ts up st fo D,
+  pkg_run_up facts annots ts up st -> export exported up (mp st) = Some fo -> conflicts st = [] ->
+  (forall s, In s (sites_of D) -> vis exported st s) ->
+  (forall k a, In (k, a) (ctld (pkg_csys facts annots ts)) -> dv st k <> None) ->
+  has_flow (CWh facts annots ts D) -> has_flow (CEx facts fo D).
+Proof. exact modular_complete. Qed.
+Print Assumptions C06_importer_finds_every_flow.
+
+Theorem C06_importer_verdicts_nilable : forall exported facts annots ts up st fo D,
+  pkg_run_up facts annots ts up st -> export exported up (mp st) = Some fo -> conflicts st = [] ->
+  (forall s, In s (sites_of D) -> vis exported st s) ->
+  (forall k a, In (k, a) (ctld (pkg_csys facts annots ts)) -> dv st k <> None) ->
+  forall s, vis exported st s -> nilr (CWh facts annots ts D) s -> has_flow (CEx facts fo D) \/ nilr (CEx facts fo D) s.
+Proof. exact visible_nilable. Qed.
+Print Assumptions C06_importer_verdicts_nilable.
+
+Theorem C06_importer_verdicts_nonnil : forall exported facts annots ts up st fo D,
+  pkg_run_up facts annots ts up st -> export exported up (mp st) = Some fo -> conflicts st = [] ->
+  (forall s, In s (sites_of D) -> vis exported st s) ->
+  (forall k a, In (k, a) (ctld (pkg_csys facts annots ts)) -> dv st k <> None) ->
+  forall s, vis exported st s -> nonr (CWh facts annots ts D) s -> has_flow (CEx facts fo D) \/ nonr (CEx facts fo D) s.
+Proof. exact visible_nonnil. Qed.
+Print Assumptions C06_importer_verdicts_nonnil.
